@@ -43,10 +43,10 @@ func (f *fakeTree) EnableLazyRebalancing(structures.LazyRebalancingConfig) error
 func (f *fakeTree) EnableIncrementalRebalancing(structures.IncrementalRebalancingConfig) error {
 	return nil
 }
-func (f *fakeTree) DisableRebalancing() error                          { return nil }
+func (f *fakeTree) DisableRebalancing() error                        { return nil }
 func (f *fakeTree) StartBackgroundRebalancing(context.Context) error { return nil }
-func (f *fakeTree) StopBackgroundRebalancing() error                   { return nil }
-func (f *fakeTree) GetFileSize() uint64                                { return f.size }
+func (f *fakeTree) StopBackgroundRebalancing() error                 { return nil }
+func (f *fakeTree) GetFileSize() uint64                              { return f.size }
 
 type c19Obs struct {
 	Step     string  `json:"dt"`
